@@ -263,6 +263,7 @@ func cmdCheck(args []string) {
 	secsByFunc := map[string]float64{}
 	var detachedClauses []string
 	var deadReturns []string
+	var staleClauses []string
 	var suspectVacuity []string
 	deadBaseline := map[string]int{}
 	readJSON(verifDir+"/specs/dead_returns.json", &deadBaseline)
@@ -273,7 +274,15 @@ func cmdCheck(args []string) {
 		ukey := u.Pkg + " " + u.Key
 		funcsUnder = append(funcsUnder, ukey)
 		for _, se := range u.SpecErrs {
-			toolErrors = append(toolErrors, "specification error in "+ukey+": "+se)
+			te := "specification error in " + ukey + ": " + se
+			if !containsStr(toolErrors, te) {
+				toolErrors = append(toolErrors, te)
+			}
+		}
+		for _, se := range u.Stale {
+			msg := fmt.Sprintf("%s: a loop or call-site clause no longer resolves (%s); its obligations are not judged", ukey, se)
+			fmt.Println("STALE-CONTRACT:", msg)
+			staleClauses = append(staleClauses, msg)
 		}
 		if u.Vacuous != "" {
 			toolErrors = append(toolErrors, fmt.Sprintf("vacuity: the assumptions of %s are contradictory where it returns (%s): nothing proved about it counts", ukey, u.Vacuous))
